@@ -72,12 +72,14 @@ FailOuts(kinds, classes, ras) == { Out(o, k, ra) : o \in kinds, k \in classes, r
 
 RetsOne == {Val(1)}
 RetsTwoSmall == {Val(0), Val(2)}
+RetsWin == {Val(3)}          \* a back-off as long as the budget window of ConfigsC10y
 RasNone == {None}
 ZeroDur == {0}
 SomeDur == {0, 2}
 BFaultsNone == {"none"}
 BFaultsAll == {"none", "error", "kbd", "sysexit", "cancel"}
 AdvsExact == {"exact"}
+AdvsTwo == {"exact", "none"}      \* a sleeper that returns without time passing
 AdvsThree == {"exact", "over4", "none"}
 RasSome == {None, 0, 2}
 \* ---- C01: caps ---------------------------------------------------------
@@ -204,6 +206,9 @@ ConfigsC10x ==
     { [Base EXCEPT !.maxAtt = 3, !.rc = TRUE, !.budget = bu, !.bW = w] :
         bu \in {1, 2}, w \in {3} }
 GapsC10 == {0, 1, 3}
+ConfigsC10y ==
+    { [Base EXCEPT !.maxAtt = 3, !.rc = TRUE, !.budget = bu, !.bW = 3] : bu \in {1, 2} }
+GapsC10y == {0, 1}
 GapsNone == {0}
 
 \* ---- C13: abort and cancellation ---------------------------------------------
